@@ -184,7 +184,7 @@ theorem leaf_spec {k : LeafKind} {t : Text} (h : leafOk k t = true) :
       intro e; subst e; simp at h
     exact ⟨rfl, hne, endsWithNL_false_of_all _ h.2 (by decide)⟩
 
-theorem nameOk_spec {n : Text} (h : nameOk n = true) : splitAttrpath n = .ok [n] ∧ solidT n := by
+theorem nameOk_spec {n : Text} (h : nameOk n = true) : splitAttrpathF n = .ok [n] ∧ solidT n := by
   simp only [nameOk, Bool.and_eq_true, decide_eq_true_eq, Bool.not_eq_true', List.isEmpty_eq_false_iff] at h
   obtain ⟨⟨hs, hne⟩, hnl⟩ := h
   refine ⟨hs, hne, ?_⟩
@@ -773,5 +773,43 @@ theorem items_toks_lexM : (its : Items) → toksL its.lexM = toksL its.lex
     simp only [toksL_append, toksL_ncm, toksL_lexGC, h1, h2, toksL_tok, toksL_nil]
     simp
 end
+
+/-! ### the fuel version of the attrpath splitter is the splitter -/
+
+theorem splitGoF_eq : ∀ (fuel : Nat) (st : SplitSt) (t : Text), t.length < fuel → splitGoF fuel st t = splitGo st t
+  | 0, _, _, h => by omega
+  | fuel + 1, st, [], _ => by rw [splitGoF, splitGo]
+  | fuel + 1, st, ch :: rest, h => by
+    have hr : rest.length < fuel := by simp at h; omega
+    have ht : rest.tail.length < fuel := by simp; omega
+    rw [splitGoF, splitGo]
+    simp only [splitGoF_eq fuel _ rest hr, splitGoF_eq fuel _ rest.tail ht]
+    split
+    · rfl
+    · split
+      · rfl
+      · split
+        · rfl
+        · split
+          · rfl
+          · split
+            · rename_i hdot
+              cases hf : splitFlush st with
+              | ok st' => rfl
+              | error e => rfl
+            · rfl
+
+theorem splitAttrpathF_eq (t : Text) : splitAttrpathF t = splitAttrpath t := by
+  unfold splitAttrpathF splitAttrpath
+  rw [splitGoF_eq _ _ _ (Nat.lt_succ_self _)]
+  cases splitGo {} t with
+  | error e => rfl
+  | ok st =>
+    show (if st.depth > 0 then _ else _) = (if st.depth > 0 then _ else _)
+    split
+    · rfl
+    · split
+      · rfl
+      · cases splitFlush st <;> rfl
 
 end Nima.Frag
